@@ -106,6 +106,9 @@ def run(ctx):
     from .c06 import commit_state
     commit_state(ctx)  # shared with C06/R06.1: the snapshot a lagging subscriber is reset to
 
+    from . import groups
+    groups.im_core(ctx)
+
 
 
 def r07_2(ctx, commit):
